@@ -1535,6 +1535,188 @@ fn count_limit(senders: bool) -> ! {
     std::process::exit(if viol.is_empty() { 0 } else { 1 });
 }
 
+// ---- payloads whose destructor comes back to the channel ---------------------------------------
+// A message may carry a handle of the very channel it travels through ("reply to me"), or its destructor may look
+// at the channel. Wherever the channel itself destroys such a value (close, refused / failed / timed-out sends,
+// dropped futures) the destructor takes the channel lock: if the channel ran it while holding that lock, the
+// call never returns. Single-threaded, so a call that does not return is stuck for good (watchdog -> `hang`).
+mod reent {
+    use super::*;
+    use std::sync::atomic::{AtomicU64, Ordering::SeqCst};
+    pub static DROPS: AtomicU64 = AtomicU64::new(0);
+    pub enum Inner {
+        S(#[allow(dead_code)] Sender<RMsg>),
+        AS(#[allow(dead_code)] AsyncSender<RMsg>),
+        R(#[allow(dead_code)] Receiver<RMsg>),
+        AR(#[allow(dead_code)] AsyncReceiver<RMsg>),
+        /// looks at the channel in its destructor and must not keep the channel alive: forgets its handle... no:
+        /// holds a handle like the others, and additionally calls observers
+        Probe(Sender<RMsg>),
+    }
+    pub struct RMsg {
+        #[allow(dead_code)]
+        pub id: u32,
+        pub inner: Option<Inner>,
+    }
+    impl Drop for RMsg {
+        fn drop(&mut self) {
+            DROPS.fetch_add(1, SeqCst);
+            if let Some(Inner::Probe(s)) = &self.inner {
+                let _ = (s.len(), s.is_closed(), s.receiver_count());
+            }
+            // the handle inside (if any) is dropped right after this body: Drop for Sender/Receiver locks the channel
+        }
+    }
+    pub const KINDS: [&str; 5] = ["Sender", "AsyncSender", "Receiver", "AsyncReceiver", "Sender + observers in drop"];
+    pub fn mk(k: usize, id: u32, s: &Sender<RMsg>, r: &Receiver<RMsg>) -> RMsg {
+        let inner = match k {
+            0 => Inner::S(s.clone()),
+            1 => Inner::AS(s.clone_async()),
+            2 => Inner::R(r.clone()),
+            3 => Inner::AR(r.clone_async()),
+            _ => Inner::Probe(s.clone()),
+        };
+        RMsg { id, inner: Some(inner) }
+    }
+    pub fn drops() -> u64 {
+        DROPS.load(SeqCst)
+    }
+}
+
+fn reentrant_payloads(stats: &mut (u64, u64)) -> Result<(), String> {
+    use reent::*;
+    let cell = WakeCell::new(1, None);
+    let w = waker_of(&cell);
+    let call = |what: String| {
+        BEAT.fetch_add(1, std::sync::atomic::Ordering::Relaxed);
+        if let Ok(mut l) = CUR_CALL.lock() {
+            *l = (0, what);
+        }
+    };
+    macro_rules! step {
+        ($desc:expr, $e:expr, $exp:expr, $drops:expr) => {{
+            let d0 = drops();
+            let desc: String = $desc;
+            call(desc.clone());
+            let got = format!("{:?}", $e);
+            stats.1 += 1;
+            if got != $exp {
+                return Err(format!("{}: returned {} but the reference channel returns {}", desc, got, $exp));
+            }
+            let dd = drops() - d0;
+            if dd != $drops {
+                return Err(format!("{}: {} message(s) had been destroyed when the call returned, the reference channel says {}", desc, dd, $drops));
+            }
+        }};
+    }
+    for k in 0..KINDS.len() {
+        let kn = KINDS[k];
+        for cap in [None, Some(4usize), Some(1), Some(0)] {
+            let capn = cap_name(cap);
+            let ctx = |c: &str| format!("reentrant payload (each message holds a {} of its own channel), capacity {}: {}", kn, capn, c);
+            let new = || match cap {
+                None => kanal::unbounded::<RMsg>(),
+                Some(c) => kanal::bounded::<RMsg>(c),
+            };
+            stats.0 += 1;
+            // 1. close() with buffered messages: all of them destroyed by the time it returns
+            if cap != Some(0) {
+                for closer in 0..4 {
+                    let (s, r) = new();
+                    let n = cap.unwrap_or(3).min(3);
+                    for i in 0..n {
+                        step!(ctx("try_send"), s.try_send(mk(k, i as u32, &s, &r)).map_err(|_| ()), "Ok(true)", 0);
+                    }
+                    let cn = ["Sender::close()", "Receiver::close()", "AsyncSender::close()", "AsyncReceiver::close()"][closer];
+                    let (a_s, a_r) = (s.clone_async(), r.clone_async());
+                    step!(
+                        ctx(&format!("{} with {} buffered message(s)", cn, n)),
+                        match closer {
+                            0 => s.close(),
+                            1 => r.close(),
+                            2 => a_s.close(),
+                            _ => a_r.close(),
+                        }
+                        .map_err(|_| ()),
+                        "Ok(())",
+                        n as u64
+                    );
+                    step!(ctx("is_closed() after close"), s.is_closed(), "true", 0);
+                    // 2. sends on the closed channel destroy (or hand back) their value
+                    step!(ctx("try_send on the closed channel"), s.try_send(mk(k, 10, &s, &r)).map_err(|e| format!("{:?}", e)), "Err(\"Closed\")", 1);
+                    step!(ctx("try_send_realtime on the closed channel"), s.try_send_realtime(mk(k, 11, &s, &r)).map_err(|e| format!("{:?}", e)), "Err(\"Closed\")", 1);
+                    step!(ctx("send on the closed channel"), s.send(mk(k, 12, &s, &r)).map_err(|e| format!("{:?}", e)), "Err(\"Closed\")", 1);
+                    step!(ctx("send_timeout(0) on the closed channel"), s.send_timeout(mk(k, 13, &s, &r), Duration::ZERO).map_err(|e| format!("{:?}", e)), "Err(\"Closed\")", 1);
+                    let mut o = Some(mk(k, 14, &s, &r));
+                    step!(ctx("send_option_timeout(0) on the closed channel"), s.send_option_timeout(&mut o, Duration::ZERO).map_err(|e| format!("{:?}", e)), "Err(\"Closed\")", 0);
+                    step!(ctx("dropping the value handed back"), drop(o.take()), "()", 1);
+                    {
+                        let mut f = Box::pin(a_s.send(mk(k, 15, &s, &r)));
+                        let mut cx = Context::from_waker(&w);
+                        step!(ctx("polling a send future on the closed channel"), f.as_mut().poll(&mut cx).map_err(|e| format!("{:?}", e)), "Ready(Err(\"Closed\"))", 1);
+                    }
+                }
+            }
+            // 3. refused and timed-out sends on a full buffer; a pending send future dropped
+            if let Some(c) = cap {
+                let (s, r) = new();
+                let a_s = s.clone_async();
+                for i in 0..c {
+                    step!(ctx("try_send"), s.try_send(mk(k, i as u32, &s, &r)).map_err(|_| ()), "Ok(true)", 0);
+                }
+                step!(ctx("try_send refused (full, no receiver waits)"), s.try_send(mk(k, 20, &s, &r)).map_err(|_| ()), "Ok(false)", 1);
+                step!(ctx("try_send_realtime refused"), s.try_send_realtime(mk(k, 21, &s, &r)).map_err(|_| ()), "Ok(false)", 1);
+                step!(ctx("send_timeout(0) timing out"), s.send_timeout(mk(k, 22, &s, &r), Duration::ZERO).map_err(|e| format!("{:?}", e)), "Err(\"Timeout\")", 1);
+                let mut o = Some(mk(k, 23, &s, &r));
+                step!(ctx("send_option_timeout(0) timing out"), s.send_option_timeout(&mut o, Duration::ZERO).map_err(|e| format!("{:?}", e)), "Err(\"Timeout\")", 0);
+                step!(ctx("try_send_option refused"), s.try_send_option(&mut o).map_err(|_| ()), "Ok(false)", 0);
+                step!(ctx("dropping the value handed back"), drop(o.take()), "()", 1);
+                {
+                    let mut f = Box::pin(a_s.send(mk(k, 24, &s, &r)));
+                    let mut cx = Context::from_waker(&w);
+                    step!(ctx("polling a send future on the full channel"), f.as_mut().poll(&mut cx).map_err(|_| ()), "Pending", 0);
+                    step!(ctx("dropping the pending send future (it owns its message)"), drop(f), "()", 1);
+                }
+                {
+                    // a pending send future released by close(): Err, message destroyed
+                    let mut f = Box::pin(a_s.send(mk(k, 25, &s, &r)));
+                    let mut cx = Context::from_waker(&w);
+                    step!(ctx("polling a send future on the full channel"), f.as_mut().poll(&mut cx).map_err(|_| ()), "Pending", 0);
+                    step!(ctx(&format!("close() with {} buffered message(s) and a pending send future", c)), r.close().map_err(|_| ()), "Ok(())", c as u64);
+                    step!(ctx("polling the send future released by close()"), f.as_mut().poll(&mut cx).map_err(|e| format!("{:?}", e)), "Ready(Err(\"Closed\"))", 1);
+                }
+            }
+            // 4. a receive future that was served by hand-off and is dropped without being polled again
+            {
+                let (s, r) = new();
+                let a_r = r.clone_async();
+                let mut f = Box::pin(a_r.recv());
+                let mut cx = Context::from_waker(&w);
+                step!(ctx("polling a receive future on the empty channel"), f.as_mut().poll(&mut cx).map(|x| x.is_ok()), "Pending", 0);
+                step!(ctx("try_send into the waiting receive future"), s.try_send(mk(k, 30, &s, &r)).map_err(|_| ()), "Ok(true)", 0);
+                step!(ctx("dropping the receive future that holds the delivered message"), drop(f), "()", 1);
+                // and the ordinary way: received, then dropped by the caller
+                let mut f = Box::pin(a_r.recv());
+                step!(ctx("polling a receive future on the empty channel"), f.as_mut().poll(&mut cx).map(|x| x.is_ok()), "Pending", 0);
+                step!(ctx("try_send into the waiting receive future"), s.try_send(mk(k, 31, &s, &r)).map_err(|_| ()), "Ok(true)", 0);
+                step!(ctx("polling the served receive future"), f.as_mut().poll(&mut cx).map(|x| x.map(|m| m.id).map_err(|_| ())), "Ready(Ok(31))", 1);
+            }
+            // 5. drain_into moves messages out without destroying any
+            if cap != Some(0) {
+                let (s, r) = new();
+                let n = cap.unwrap_or(3).min(3);
+                for i in 0..n {
+                    step!(ctx("try_send"), s.try_send(mk(k, i as u32, &s, &r)).map_err(|_| ()), "Ok(true)", 0);
+                }
+                let mut v = Vec::new();
+                step!(ctx("drain_into"), r.drain_into(&mut v).map_err(|_| ()), format!("Ok({})", n), 0);
+                step!(ctx("dropping the drained messages"), drop(v), "()", n as u64);
+            }
+        }
+    }
+    Ok(())
+}
+
 fn gcd(a: usize, b: usize) -> usize {
     if b == 0 {
         a
@@ -1758,6 +1940,15 @@ fn main() {
             }
         }
     }
+    let mut reent_stats = (0u64, 0u64);
+    if !bigfill.is_empty() && nviol < stop_after {
+        if let Err(e) = reentrant_payloads(&mut reent_stats) {
+            nviol += 1;
+            report("reentrant", None, false, &[], &(e, vec!["seqdiff --depth 0 --random 0 --bigfill q".to_string()]), &mut out);
+        }
+    }
+    out.set("reentrant_payload_configurations", J::U(reent_stats.0));
+    out.set("reentrant_payload_calls", J::U(reent_stats.1));
     let mut handle_stats = (0u64, 0u64);
     if !bigfill.is_empty() && nviol < stop_after {
         let n = if bigfill == "t" { (1usize << 25) + 3 } else { (1usize << 21) + 3 };
